@@ -173,7 +173,7 @@ def make_values(rng, n, D, G, kind="moderate"):
     """n arrays of shape (D, G) of per-grid-point log-likelihoods."""
     vals = []
     grid = np.linspace(0.0, 1.0, G)
-    for _ in range(n):
+    for _i in range(n):
         if kind == "flat":
             v = np.zeros((D, G))
         elif kind == "moderate":
@@ -202,6 +202,20 @@ def make_values(rng, n, D, G, kind="moderate"):
                 vaf = np.clip(grid / 2.0, 1e-3, 1 - 1e-3)
                 v[d] = alt * np.log(vaf) + (depth - alt) * np.log1p(-vaf)
                 v[d] -= v[d].max() - rng.normal()
+        elif kind == "scales":
+            # data points of very different weight in one data set: big deeply sequenced clusters (log-likelihoods of
+            # magnitude 1e4-1e6, flat-ish or sharply peaked) next to barely informative ones (variation 1e-3..0.3)
+            which = _i % 3 if _i < 3 else int(rng.integers(0, 3))
+            if which == 0:
+                v = -float(10 ** rng.uniform(4, 6)) + rng.normal(size=(D, G)) * 1.5
+            elif which == 1:
+                v = rng.normal(size=(D, G)) * float(10 ** rng.uniform(-3, -0.5))
+            else:
+                v = np.empty((D, G))
+                for d in range(D):
+                    c = rng.random()
+                    w = 0.3 + rng.random() * 0.6
+                    v[d] = (-0.5 * ((grid - c) / w) ** 2) * float(10 ** rng.uniform(0, 1.5)) - float(10 ** rng.uniform(2, 5))
         else:
             raise ValueError(kind)
         vals.append(np.ascontiguousarray(v, dtype=np.float64))
@@ -236,23 +250,39 @@ def make_data(rng, n, D, G, kind="moderate", outlier_prior=0.0, sizes=None, tag=
 
 
 # ----------------------------------------------------------------------------- materialisation
-def build_tree(forest, data, grid_size=None, order=None, child_order_rng=None):
+def build_tree(forest, data, grid_size=None, order=None, child_order_rng=None, incremental_rng=None):
     """Build a phyclone Tree for an abstract forest bottom-up through the public API.
 
     Returns (tree, names) where names[i] is the clone name of block i.  ``order``: a post-order of blocks to use
-    (default: forest.postorder()).  Clone names are 0..K-1 in creation order (create_root_node's precondition)."""
+    (default: forest.postorder()).  Clone names are 0..K-1 in creation order (create_root_node's precondition).
+    ``incremental_rng``: clones are created holding one data point each; the others are then added one at a time in a
+    random order through add_data_point_to_node, some by way of another clone first (added there, removed, re-added)."""
     from phyclone.tree import Tree
 
     if grid_size is None:
         grid_size = data[0].shape
     tree = Tree(grid_size)
     names = {}
+    later = []
     order = forest.postorder() if order is None else order
     for i in order:
         ch = [names[c] for c in forest.children(i)]
         if child_order_rng is not None and len(ch) > 1:
             child_order_rng.shuffle(ch)
-        names[i] = tree.create_root_node(children=ch, data=[data[j] for j in forest.blocks[i]])
+        pts = list(forest.blocks[i])
+        if incremental_rng is not None:
+            incremental_rng.shuffle(pts)
+            later.extend((j, i) for j in pts[1:])
+            pts = pts[:1]
+        names[i] = tree.create_root_node(children=ch, data=[data[j] for j in pts])
+    if later:
+        incremental_rng.shuffle(later)
+        for j, i in later:
+            if forest.K > 1 and incremental_rng.random() < 0.4:
+                other = int(incremental_rng.integers(0, forest.K))
+                tree.add_data_point_to_node(data[j], names[other])
+                tree.remove_data_point_from_node(data[j], names[other])
+            tree.add_data_point_to_node(data[j], names[i])
     for j in forest.outliers:
         tree.add_data_point_to_outliers(data[j])
     return tree, names
